@@ -380,3 +380,87 @@ func H_C16_tostring() {
 	VAssert(perr == nil && float64(pn) == x, "tostring: the coercion of tostring(x) is x")
 	VReach("end")
 }
+
+// refBaseNumeral is tonumber(s, base) for an explicit base by lbaselib.c (strtoul): blanks, digits of that base
+// (letters in either case), blanks.  cat classifies texts whose treatment is reported separately.
+func refBaseNumeral(s string, base int) (ok bool, val float64, cat string) {
+	isBlank := func(c byte) bool { return c == ' ' || (c >= '\t' && c <= '\r') }
+	i, j := 0, len(s)
+	for i < j && isBlank(s[i]) {
+		i++
+	}
+	for j > i && isBlank(s[j-1]) {
+		j--
+	}
+	body := s[i:j]
+	for k := 0; k < len(body); k++ {
+		if body[k] == '.' {
+			return false, 0, "text with a dot"
+		}
+	}
+	if len(body) > 0 && (body[0] == '+' || body[0] == '-') {
+		return false, 0, "signed"
+	}
+	if base == 16 && len(body) >= 2 && body[0] == '0' && (body[1] == 'x' || body[1] == 'X') {
+		return false, 0, "0x prefix with base 16"
+	}
+	if len(body) == 0 {
+		return false, 0, "empty"
+	}
+	v := 0.0
+	for k := 0; k < len(body); k++ {
+		c := body[k]
+		d := 99
+		switch {
+		case c >= '0' && c <= '9':
+			d = int(c - '0')
+		case c >= 'a' && c <= 'z':
+			d = int(c-'a') + 10
+		case c >= 'A' && c <= 'Z':
+			d = int(c-'A') + 10
+		}
+		if d >= base {
+			return false, 0, "not a digit of the base"
+		}
+		v = v*float64(base) + float64(d)
+	}
+	return true, v, "digits of the base"
+}
+
+// C16.tonumberbase — tonumber with an explicit base.
+//
+//verif:harness prop=C16 tier=quick qparams=n:2 tparams=n:3 bounds="every byte string of length <= n (2 quick / 3 thorough; at length 3 ASCII only) x base in {2, 8, 10, 16, 33, 34, 35, 36}; reference: blanks* digit+ blanks* with digits (either case) below the base; signed texts, 0x-prefixed texts in base 16 and fractions in base 10 are not judged"
+func H_C16_tonumberbase() {
+	n := VChoice(VParam("n", 2) + 1)
+	s := VStr("s", n)
+	if n >= 3 {
+		for i := 0; i < n; i++ {
+			VAssume(s[i] < 0x80)
+		}
+	}
+	base := []int{2, 8, 10, 16, 33, 34, 35, 36}[VChoice(8)]
+	L := newL(Options{}, BaseLibName)
+	ok, val, cat := refBaseNumeral(s, base)
+	L.Push(L.GetGlobal("tonumber"))
+	L.Push(LString(s))
+	L.Push(LNumber(base))
+	err := L.PCall(2, 1, nil)
+	VAssert(err == nil, "tonumberbase: tonumber never raises for a base in 2..36")
+	tn, tnOK := L.Get(-1).(LNumber)
+	if cat == "signed" || cat == "0x prefix with base 16" {
+		// strtoul accepts a sign (negating as unsigned) and, in base 16, a 0x prefix; the property's wording
+		// does not settle either, so these texts are not judged
+		VReach("end")
+		return
+	}
+	if base == 10 && cat == "text with a dot" {
+		// base 10 is the ordinary reader (fractions allowed): covered by C16.numeral
+		VReach("end")
+		return
+	}
+	VAssert(tnOK == ok, "tonumberbase: accepts exactly the digit strings of the base ["+cat+"]")
+	if ok && tnOK {
+		VAssert(VEqF(float64(tn), val), "tonumberbase: value ["+cat+"]")
+	}
+	VReach("end")
+}
